@@ -254,18 +254,26 @@ impl<'a> emit::Props for DynProps<'a> {
             DynProps::Tuple(t) => t.for_each(for_each),
             DynProps::Map(m) => m.for_each(for_each),
             DynProps::Dedup(s) => s.dedup().for_each(for_each),
-            DynProps::And(a) => a.for_each(for_each),
+            DynProps::And(a) => {
+                // (type-erase the callback: `And` wraps it in `&mut` on every level of the tree)
+                let mut f = for_each;
+                let f: &mut dyn FnMut(emit::Str<'kv>, emit::Value<'kv>) -> std::ops::ControlFlow<()> = &mut f;
+                // deref the box: `Box<P>` is itself `Props` but does not forward `is_unique`/`get`
+                (**a).for_each(f)
+            }
             DynProps::Erased(p) => (&**p as &dyn emit::props::ErasedProps).for_each(for_each),
         }
     }
 
     fn get<'v, K: emit::str::ToStr>(&'v self, key: K) -> Option<emit::Value<'v>> {
+        // (normalise the key type: `And::get` adds a reference on every level of the tree)
+        let key = key.to_str();
         match self {
             DynProps::Slice(s) => s.get(key),
             DynProps::Tuple(t) => t.get(key),
             DynProps::Map(m) => emit::Props::get(m, key),
             DynProps::Dedup(s) => s.dedup().get(key),
-            DynProps::And(a) => a.get(key),
+            DynProps::And(a) => (**a).get(key),
             DynProps::Erased(p) => (&**p as &dyn emit::props::ErasedProps).get(key),
         }
     }
@@ -276,7 +284,7 @@ impl<'a> emit::Props for DynProps<'a> {
             DynProps::Tuple(t) => t.is_unique(),
             DynProps::Map(m) => m.is_unique(),
             DynProps::Dedup(s) => s.dedup().is_unique(),
-            DynProps::And(a) => a.is_unique(),
+            DynProps::And(a) => (**a).is_unique(),
             DynProps::Erased(p) => (&**p as &dyn emit::props::ErasedProps).is_unique(),
         }
     }
